@@ -174,6 +174,12 @@ class Engine(Core, ExprMixin, CallMixin, StmtMixin):
             if not is_true(live):
                 exit_st.path.append(zbool(live))
             env2 = dict(env)
+            if "@" in qual:
+                # a block has no return value: the locals it hands on to the rest of the host are visible to its postconditions
+                from .source import BLOCKS
+                for name in BLOCKS[qual].get("exports", []):
+                    if est.env.get(name) is not None:
+                        env2["final_" + name] = est.env[name]
             if c.returns is not None:
                 if v is None or v.ty.kind == "None":
                     if c.returns.kind == "Opt":
